@@ -1,8 +1,10 @@
 /-
 Model of `dnsdata/svcb` (svcb.go, marshallers.go, unmarshallers.go): `ParamList.FromText`,
 `ToWire`, `ToText` with the seven value marshallers / unmarshallers, transcribed as written
-(including the quirks: the loop of `FromText` stops at the first empty `;` segment, `bytes.Trim`
-strips any number of `"` on both ends, `byte(len(alpn))` truncates, `uint16(len(value))` truncates).
+(including the quirks: `bytes.Trim` strips any number of `"` on both ends, `uint16(len(value))`
+truncates). Transcribes /repo after commits e9b4da5 (the loop of `FromText` skips empty `;`
+segments; before, it stopped at the first one) and 368102c (`alpnMarshaller` rejects ids of length
+0 or > 255; before, `byte(len(alpn))` truncated).
 
 Go library calls are modelled on the grammar they accept and validated by the correspondence:
 `bytes.Split`/`SplitN` (one-byte separator), `strconv.ParseUint(s,10,16)`, `net.ParseIP`
@@ -11,7 +13,7 @@ Go library calls are modelled on the grammar they accept and validated by the co
 `sort.SliceStable` (stable insertion sort).
 
 A Go slice expression past the length is modelled as the outcome `panic` (Go checks against the
-capacity, so the real code may read stale bytes instead; only reachable for `alpn` ids > 255 bytes).
+capacity, so the real code may read stale bytes instead; not reachable from `FromText` any more).
 
 Independent of all that, `decodeRaw`/`decodeRFC` at the end of the file is a decoder written from
 RFC 9460 §2.2 / §7 / §8 (wire format), not from the code.  Core Lean only.
@@ -35,6 +37,7 @@ inductive Err where
   | ech
   | ip6NoColon
   | ip6Parse
+  | alpnLen      -- alpn id of length 0 or > 255
   | dupKey
   | mandMissing
   | panic
@@ -343,8 +346,15 @@ def mandatoryMarshaller (input : Bytes) : Except Err Bytes :=
   let values := sortBy (fun v => (keyOfName v).getD 0) (splitOn 0x7c input)
   mandatoryLoop values []
 
-def alpnMarshaller (input : Bytes) : Except Err Bytes :=
-  .ok ((splitOn 0x7c input).flatMap fun a => UInt8.ofNat a.length :: a)
+def alpnLoop : List Bytes → Except Err Bytes
+  | [] => .ok []
+  | a :: rest =>
+    if a.length = 0 ∨ a.length > 255 then .error .alpnLen
+    else match alpnLoop rest with
+      | .error e => .error e
+      | .ok b => .ok (UInt8.ofNat a.length :: a ++ b)
+
+def alpnMarshaller (input : Bytes) : Except Err Bytes := alpnLoop (splitOn 0x7c input)
 
 def nodefaultalpnMarshaller (input : Bytes) : Except Err Bytes :=
   if input.length > 0 then .error .ndaNonEmpty else .ok []
@@ -411,11 +421,11 @@ def paramFromText (text : Bytes) : Except Err Param :=
         | .error e => .error e
         | .ok data => .ok ⟨knum, data⟩
 
-/-- the loop of `ParamList.FromText`: stops (successfully) at the first empty segment -/
+/-- the loop of `ParamList.FromText`: empty segments are skipped -/
 def parseSegs (seen : List Nat) : List Bytes → Except Err (List Param)
   | [] => .ok []
   | s :: rest =>
-    if s.isEmpty then .ok []
+    if s.isEmpty then parseSegs seen rest
     else match paramFromText s with
       | .error e => .error e
       | .ok p =>
